@@ -861,9 +861,42 @@ def _drift_ops():
         "rechunk-slice": (lambda r: r.rechunk({0: 5})[2:9], lambda a: a[2:9]),
         "store-load": (lambda r: _store_roundtrip(r), lambda a: a),
         "to_delayed": (lambda r: _from_delayed_blocks(r), lambda a: a),
+        # the drifting array as the *other* operand: a mask, an integer index, an assigned value, weights, search keys
+        "known[mask-from-drift]": (lambda r: _known_like(r)[r > 10], lambda a: _np_known_like(a)[a > 10]),
+        "known[int-index-from-drift]": (lambda r: _known_like(r)[(r.ravel() % 5).astype(int)], lambda a: _np_known_like(a)[(a.ravel() % 5).astype(int)]),
+        "known[slice] = drift": (lambda r: _assign_into_known(r), lambda a: _np_assign_into_known(a)),
+        "bincount-of-drift": (lambda r: da.bincount((r.ravel() % 5).astype(int), minlength=5), lambda a: np.bincount((a.ravel() % 5).astype(int), minlength=5)),
+        "bincount-weights-drift": (lambda r: da.bincount(da.from_array(np.arange(r.size) % 3, chunks=r.ravel().chunks), weights=r.ravel(), minlength=3), lambda a: np.bincount(np.arange(a.size) % 3, weights=a.ravel(), minlength=3)),
+        "searchsorted-keys-drift": (lambda r: da.searchsorted(da.from_array(np.arange(0.0, 40.0, 4.0), chunks=4), r), lambda a: np.searchsorted(np.arange(0.0, 40.0, 4.0), a)),
+        "where-cond-drift": (lambda r: da.where(r > 10, _known_like(r), -1.0), lambda a: np.where(a > 10, _np_known_like(a), -1.0)),
+        "matmul-known": (lambda r: r.reshape(r.shape[0], -1).T @ _known_like(r).reshape(r.shape[0], -1), lambda a: a.reshape(a.shape[0], -1).T @ _np_known_like(a).reshape(a.shape[0], -1)),
         "unify-with-known": (lambda r: r + da.from_array(np.arange(float(r.shape[0])).reshape((-1,) + (1,) * (r.ndim - 1)), chunks=5), lambda a: a + np.arange(float(a.shape[0])).reshape((-1,) + (1,) * (a.ndim - 1))),
     }
     return ops
+
+
+def _np_known_like(a):
+    import numpy as np
+    return (np.arange(float(a.size)) * 2 + 1).reshape(a.shape)
+
+
+def _known_like(r):
+    import numpy as np
+    import dask_array as da
+    shape = tuple(int(s) for s in r.shape)
+    return da.from_array((np.arange(float(np.prod(shape))) * 2 + 1).reshape(shape), chunks=(5,) + shape[1:])
+
+
+def _assign_into_known(r):
+    x = _known_like(r) + 0
+    x[2:9] = r[2:9]
+    return x
+
+
+def _np_assign_into_known(a):
+    x = _np_known_like(a) + 0
+    x[2:9] = a[2:9]
+    return x
 
 
 def _setmask(r):
@@ -912,7 +945,7 @@ class routines_on_drifting_input:
     bakes a literal of its input's layout into its graph (offsets, chunk tuples, block counts) has to pin that layout"""
     bounded_only = True
     params = {"op": "const", "rank": "const"}
-    scope = "60 routines; a 1-D drifting input of length 12 and a 2-D one of shape 12x3 (window 3 over blocks of 1 element)"
+    scope = "about 70 routines (the drifting array as the main operand, and as a mask / index / value / weights / keys of an operation on a known array); a 1-D drifting input of length 12 and a 2-D one of shape 12x3 (window 3 over blocks of 1 element)"
 
     def real():
         return lambda: None
